@@ -13,10 +13,18 @@ import gen
 
 RULE = ("definitions with rectangular shapes forced (readings != states, calibration present in half), 0-3 controls; process, control "
         "and every sensor Jacobian at dyadic points; distinct by (definition, point, which); non-trivial = Jacobian not square or "
-        "not symmetric, or calibration present")
+        "not symmetric, or calibration present; "
+        "SI-SCALED (fixed in the code): models in SI units whose true partial derivatives lie between 1e-13 and 1e-8 (time of flight "
+        "2/c, Doppler v/c, picofarads, nanosecond steps) next to O(1) entries, every entry compared RELATIVE to its own size; "
+        "EDITED-MODEL (fixed in the code): one ui.Model object compiled, its state_model edited in place (item assignment, whole-dict "
+        "replacement, edit and edit back), compiled again: each new filter answers for the model as it is when that filter is built")
 NOTE = ["oracle: sympy diff by name (independent of the Lean Expr.diff the model uses), exact Fractions",
         "theorem entry_is_partial speaks about the model's symbolic derivative Expr.diff; that Expr.diff is the analytic derivative is "
-        "validated against sympy on every instance (see Proofs/Diff if present), binary64 rounding under 1e-9 relative tolerance"]
+        "validated against sympy on every instance (see Proofs/Diff if present), binary64 rounding under 1e-9 relative tolerance",
+        "SI-scaled stream: oracle = exact sympy derivative (float coefficients taken as the rationals they are); an entry passes when "
+        "|got - want| <= 1e-9 |want|, a structurally zero entry when |got| <= 1e-9 x the smallest non-zero entry of that matrix",
+        "edited-model stream: oracle = exact sympy derivative of the definition the ui.Model object held at the moment of the "
+        "compile_ekf call (the harness keeps its own copy of every version); process, control and sensor Jacobians of each filter"]
 PARTIAL = ["transcendental definitions: the model's derivative is evaluated in Lean Float (libm) and compared within 1e-6, no exact value"]
 
 
@@ -161,7 +169,169 @@ def run(ctx):
                 ok = eh.mat_close(got, want)
             if not ok:
                 ctx.broke(f"correspondence:jacobians ({which}: Lean model vs implementation)", {"model": model, "impl": got.tolist()}, info)
+    si_scaled_stream(ctx)
+    edited_model_stream(ctx)
     return core.finish(ctx, audit, NOTE, RULE, PARTIAL)
+
+
+# ---------------------------------------------------------------------------------------------------------------------------
+# deterministic streams (inputs fixed in the code; nothing is drawn from ctx.rng)
+def _entries_close(got, want, tol=1e-9):
+    """every entry relative to ITS OWN exact value (a matrix-wide scale hides entries that are small in the model's units);
+    exact zeros are held to tol x the smallest non-zero entry of the matrix"""
+    got = np.asarray(got, dtype=float)
+    if got.shape != (len(want), len(want[0]) if want else 0) and got.size:
+        return False
+    if not np.all(np.isfinite(got)):
+        return False
+    nz = [abs(x) for r in want for x in r if x != 0]
+    floor = float(min(nz)) if nz else 1.0
+    for i, r in enumerate(want):
+        for j, w in enumerate(r):
+            w = float(w)
+            if abs(float(got[i, j]) - w) > tol * (abs(w) if w != 0.0 else floor):
+                return False
+    return True
+
+
+def _check_all_jacobians(ctx, ekf, d, pt, tag, extra, close=None, kinds=("process", "control", "sensor")):
+    """process / control / every sensor Jacobian of `ekf` at `pt` against the exact derivatives of `d` by name"""
+    close = close or eh.mat_close
+    Ls, Lc, Lk = eh.names_of(d)
+    um = {s.name: e for s, e in d.state_model.items()}
+    sub = eh.subs_map(d, pt)
+    st, ct = eh.state_obj(ekf, pt), eh.control_obj(ekf, pt)
+    jobs = []
+    if "process" in kinds:
+        jobs.append(("process", lambda: ekf.process_jacobian(float(pt["dt"]), st, ct), lambda: eh.oracle_jac(um, Ls, Ls, sub), (len(Ls), len(Ls))))
+    if "control" in kinds and Lc:
+        jobs.append(("control", lambda: ekf.control_jacobian(float(pt["dt"]), st, ct), lambda: eh.oracle_jac(um, Ls, Lc, sub), (len(Ls), len(Lc))))
+    if "sensor" in kinds:
+        for key, rd in d.sensors.items():
+            Lr = sorted(rd)
+            jobs.append((f"sensor:{key}", (lambda key=key: ekf.sensor_jacobian(key, st)),
+                         (lambda rd=rd, Lr=Lr: eh.oracle_jac(rd, Lr, Ls, sub)), (len(Lr), len(Ls))))
+    for which, impl, oracle, shape in jobs:
+        case = dict({"def": d.describe(), "point": eh.point_json(pt), "which": which, "shape": list(shape), "stream": tag}, **extra)
+        ctx.case(case, nontrivial=(shape[0] != shape[1]) or bool(Lk))
+        ctx.count(f"{tag}:{which.split(':')[0]}")
+        kind = which.split(":")[0]
+        try:
+            with fk.quiet():
+                got = np.asarray(impl(), dtype=float)
+        except Exception as e:
+            ctx.fail(f"jacobian-raises:{kind}:{fk.exc_kind(e)}:{tag}", f"{which} Jacobian raises {e!r}"[:300], case)
+            continue
+        try:
+            want = oracle()
+        except (ValueError, TypeError, OverflowError, ZeroDivisionError):
+            ctx.count("not_differentiable_here"); continue
+        if got.shape != tuple(shape) or not close(got, want):
+            ctx.fail(f"jacobian-entry:{kind}:{tag}",
+                     f"{which} Jacobian differs from the partial derivatives by name ({tag}): got {got.tolist()}, "
+                     f"want {[[float(x) for x in r] for r in want]}", case)
+
+
+def _si_definitions():
+    S = sympy.Symbol
+    R = sympy.Rational
+    dt = S("dt")
+    pos, vel, acc, c = S("pos"), S("vel"), S("acc"), S("c")
+    # 1. range / range-rate radar in SI units: the speed of light is a calibration value
+    radar = gen.Definition(dt, [pos, vel], [acc], [c], {pos: pos + dt * vel, vel: vel + dt * acc},
+                           {"radar": {"doppler": vel / c, "tof": 2 * pos / c, "echo": pos + vel * R(1, 4)},
+                            "odom": {"speed": vel}})
+    # 2. the same factors written into the expressions: exact rationals and binary floating-point coefficients
+    charge, volt, leak, amp = S("charge"), S("volt"), S("leak"), S("amp")
+    circuit = gen.Definition(dt, [charge, volt, leak], [amp], [],
+                             {charge: charge + dt * amp - dt * leak * R(1, 1000), volt: volt + charge * R(1, 4) * dt,
+                              leak: leak + sympy.Float(2.5e-10) * volt * volt},
+                             {"cap": {"farad": sympy.Float(4.7e-12) * volt, "energy": R(47, 10 ** 13) * volt ** 2 / 2 + charge},
+                              "meter": {"ma": leak * 1000, "pc": charge * R(1, 10 ** 9) * R(3, 2)}})
+    # 3. a small coefficient on a control and on a product of states
+    a, b, u, w = S("a"), S("b"), S("u"), S("w")
+    mixed = gen.Definition(dt, [a, b], [u, w], [c],
+                           {a: a + dt * b + u * R(3, 10 ** 9), b: b * (1 - dt) + a * b * R(7, 10 ** 10) + w * u / c},
+                           {"s": {"r1": a * b / c, "r2": a + b, "r3": (a - b) * R(1, 2 ** 30)}})
+    return [("radar", radar), ("circuit", circuit), ("mixed", mixed)]
+
+
+def si_scaled_stream(ctx):
+    """true partial derivatives that are small in the model's units (and O(1) ones next to them): entry-wise relative"""
+    light = F(299792458)
+    for name, d in _si_definitions():
+        cal = {s.name: light for s in d.calibration}
+        process = {s.name: F(k + 1, 4) for k, s in enumerate(d.control)}
+        sensor = {k: {r: F(j + 1, 8) for j, r in enumerate(sorted(rd))} for k, rd in d.sensors.items()}
+        Ls, Lc, Lk = eh.names_of(d)
+        pts = []
+        for dtv, base in ((F(1, 500000000), 1), (F(1, 10), -2), (F(3, 10 ** 9), 3), (F(1, 64), 5)):
+            pts.append({"dt": dtv, "cal": cal,
+                        "state": {n: F(base * (k + 2), 2) for k, n in enumerate(Ls)},
+                        "control": {n: F(base * (k + 1), 4) for k, n in enumerate(Lc)}})
+        for cse in (False, True):
+            try:
+                ekf = eh.compile_ekf(d, process, sensor, cal, None, cse=cse)
+            except Exception as e:
+                ctx.fail(f"compile-ekf-raises:{fk.exc_kind(e)}:si-scaled", f"compile_ekf refuses a valid definition: {e!r}"[:300],
+                         {"def": d.describe(), "stream": "si-scaled"})
+                continue
+            for pt in pts:
+                _check_all_jacobians(ctx, ekf, d, pt, "si-scaled", {"model": name, "cse": cse}, close=_entries_close)
+
+
+def _edited_histories():
+    """(name, first definition, [(how, state_model of the next version)])  -  all versions over the same symbols"""
+    S = sympy.Symbol
+    R = sympy.Rational
+    dt = S("dt")
+    x, v, th, u, w, k = S("x"), S("v"), S("th"), S("u"), S("w"), S("k")
+    sensors = {"gps": {"px": x + k, "sp": v * v, "mix": x * th}, "gyro": {"rate": th + v * R(1, 2)}}
+    first = {x: x + dt * v, v: v + dt * u, th: th + dt * w}
+    drag = {x: x + dt * v, v: v + dt * u - dt * v * v * R(1, 4), th: th + dt * w}            # a drag term on one state
+    quad = {x: x + dt * v + u * w * R(1, 2), v: v + dt * u * u - dt * v * v * R(1, 4), th: th * (1 + dt * x) + w}   # control quadratic
+    d0 = gen.Definition(dt, [x, v, th], [u, w], [k], dict(first), sensors)
+    p, q, g = S("p"), S("q"), S("g")
+    one = {p: p + dt * q, q: q + dt * g}
+    two = {p: p + dt * q * q, q: q * (1 - dt) + 3 * dt * g}
+    d1 = gen.Definition(dt, [p, q], [g], [], dict(one), {"s": {"a": p * q, "b": p - q, "c": q}})
+    return [
+        ("item-assign", d0, [("item", drag), ("item", quad)]),
+        ("dict-replace", d0, [("replace", quad), ("replace", drag)]),
+        ("edit-and-back", d1, [("item", two), ("item", one), ("replace", two)]),
+    ]
+
+
+def edited_model_stream(ctx):
+    """one ui.Model OBJECT, compiled, edited in place, compiled again: each filter's Jacobians are the derivatives of the process
+    model the object holds when that filter is built"""
+    for hname, d0, edits in _edited_histories():
+        cal = {s.name: F(3, 2) for s in d0.calibration}
+        process = {s.name: F(k_ + 1, 4) for k_, s in enumerate(d0.control)}
+        sensor = {key: {r: F(j + 1, 8) for j, r in enumerate(sorted(rd))} for key, rd in d0.sensors.items()}
+        Ls, Lc, Lk = eh.names_of(d0)
+        pts = [{"dt": dtv, "cal": cal, "state": {n: F(b * (i + 1), 2) for i, n in enumerate(Ls)},
+                "control": {n: F(-b * (i + 2), 4) for i, n in enumerate(Lc)}} for dtv, b in ((F(1, 8), 1), (F(1, 2), -3))]
+        for cse in (False, True):
+            model = fk.ui_model(d0, None)
+            versions = [("first", d0.state_model)] + list(edits)
+            for step, (how, sm) in enumerate(versions):
+                d = gen.Definition(d0.dt, d0.state, d0.control, d0.calibration, dict(sm), d0.sensors)
+                if how == "item":
+                    for s_, e_ in sm.items():
+                        if model.state_model[s_] != e_:
+                            model.state_model[s_] = e_
+                elif how == "replace":
+                    model.state_model = dict(sm)
+                try:
+                    ekf = eh.compile_ekf(d, process, sensor, cal, None, cse=cse, model_obj=model)
+                except Exception as e:
+                    ctx.fail(f"compile-ekf-raises:{fk.exc_kind(e)}:edited-model", f"compile_ekf refuses a valid definition: {e!r}"[:300],
+                             {"def": d.describe(), "stream": "edited-model", "history": hname, "step": step})
+                    break
+                ctx.count("edited_model_compiles")
+                for pt in pts:
+                    _check_all_jacobians(ctx, ekf, d, pt, "edited-model", {"history": hname, "step": step, "how": how, "cse": cse})
 
 
 def replay(ctx, data):
